@@ -33,6 +33,8 @@ type scheduler struct {
 	mainAbort   any
 	hasAbort    bool
 	log         []string
+	timers      []*vtimer
+	fired       int
 	live        sync.WaitGroup // host goroutines of this path
 	dead        bool           // path over: nobody may touch the solver any more
 }
@@ -75,8 +77,8 @@ func (s *scheduler) pick(en []*goroutine, why string) *goroutine {
 			curEnabled = true
 		}
 	}
-	if d := s.r.eng.cfg.Delays; d > 0 {
-		return s.pickDelayed(en, why, d, curEnabled)
+	if s.r.eng.cfg.DelayBounded {
+		return s.pickDelayed(en, why, s.r.eng.cfg.Delays, curEnabled)
 	}
 	bound := s.r.eng.Opts.Preemptions
 	if s.r.eng.cfg.Preemptions > 0 {
@@ -128,6 +130,18 @@ func (s *scheduler) pickDelayed(en []*goroutine, why string, bound int, curEnabl
 	return order[i]
 }
 
+// note appends to the schedule log kept for concrete replays.
+func (s *scheduler) note(what string) {
+	if s.r.eng.cfg.ReplayInputs == nil {
+		return
+	}
+	where := ""
+	if s.r.curFn != nil {
+		where = " in " + s.r.curFn.String()
+	}
+	s.log = append(s.log, what+where)
+}
+
 // switchTo hands control to g and parks the current goroutine until resumed.
 func (s *scheduler) switchTo(g *goroutine) {
 	me := s.cur
@@ -135,6 +149,7 @@ func (s *scheduler) switchTo(g *goroutine) {
 		return
 	}
 	s.switches++
+	s.note(fmt.Sprintf("g%d -> g%d", me.id, g.id))
 	s.cur = g
 	g.wake <- true
 	s.park(me)
@@ -174,6 +189,9 @@ func (s *scheduler) block(why string, ready func() bool) {
 	me.what = why
 	for {
 		en := s.enabled()
+		for len(en) == 0 && s.fireTimer() {
+			en = s.enabled()
+		}
 		if len(en) == 0 {
 			s.deadlock()
 		}
@@ -188,6 +206,90 @@ func (s *scheduler) block(why string, ready func() bool) {
 	}
 	me.ready = nil
 	me.what = ""
+}
+
+// ---- timers (Options.QuiescentTimers)
+
+type vtimer struct {
+	key   *value // the *time.Timer cell; nil for time.After
+	ch    *gochan
+	tick  value
+	dur   int64
+	armed bool
+}
+
+func (s *scheduler) newTimer(key *value, ch *gochan, tick value, d int64) {
+	s.timers = append(s.timers, &vtimer{key: key, ch: ch, tick: tick, dur: d, armed: true})
+	if s.r.eng.Opts.QuiescentTimers {
+		s.r.stubs["timers (fire only when every goroutine is blocked, shortest duration first)"]++
+	} else {
+		s.r.stubs["timers (never fire)"]++
+	}
+}
+
+func (s *scheduler) findTimer(key *value) *vtimer {
+	for _, t := range s.timers {
+		if t.key == key {
+			return t
+		}
+	}
+	return nil
+}
+
+func (s *scheduler) stopTimer(key *value) bool {
+	t := s.findTimer(key)
+	if t == nil {
+		return true
+	}
+	was := t.armed
+	t.armed = false
+	return was
+}
+
+func (s *scheduler) resetTimer(key *value, d int64) bool {
+	t := s.findTimer(key)
+	if t == nil {
+		return true
+	}
+	was := t.armed
+	t.armed, t.dur = true, d
+	return was
+}
+
+// fireTimer is called when nothing is enabled: time passes, the armed timer
+// with the shortest duration (earliest created on ties) fires. Reports whether
+// one did.
+func (s *scheduler) fireTimer() bool {
+	if !s.r.eng.Opts.QuiescentTimers {
+		return false
+	}
+	var best *vtimer
+	for _, t := range s.timers {
+		if t.armed && (best == nil || t.dur < best.dur) {
+			best = t
+		}
+	}
+	if best == nil {
+		return false
+	}
+	s.fired++
+	if s.fired > 9 {
+		// time keeps passing with every goroutine blocked and the scenario does
+		// not end: no progress is possible any more
+		s.raise(pathAbort{"deadlock", "timers fired 10 times while every goroutine was blocked: the scenario makes no progress"})
+	}
+	best.armed = false
+	if len(best.ch.buf) < best.ch.cap {
+		best.ch.buf = append(best.ch.buf, best.tick)
+	}
+	// the timers left run on: they have waited that long already
+	for _, t := range s.timers {
+		if t.armed {
+			t.dur -= best.dur
+		}
+	}
+	s.note(fmt.Sprintf("timer fires (%dms)", best.dur/1e6))
+	return true
 }
 
 func (s *scheduler) deadlock() {
@@ -225,6 +327,7 @@ func spawn(fr *frame, instr *ssa.Go, fn value, args []value) {
 	}
 	g := &goroutine{id: len(s.gs), wake: make(chan bool, 1)}
 	s.gs = append(s.gs, g)
+	s.note(fmt.Sprintf("g%d spawns g%d", s.cur.id, g.id))
 	i := fr.i
 	s.live.Add(1)
 	go func() {
@@ -252,6 +355,9 @@ func spawn(fr *frame, instr *ssa.Go, fn value, args []value) {
 			}
 			// normal exit: hand over to somebody else
 			en := s.enabled()
+			for len(en) == 0 && s.fireTimer() {
+				en = s.enabled()
+			}
 			if len(en) == 0 {
 				// everybody else is blocked: deadlock (main cannot be done here)
 				desc := "all goroutines blocked after exit of g" + fmt.Sprint(g.id)
@@ -270,6 +376,7 @@ func spawn(fr *frame, instr *ssa.Go, fn value, args []value) {
 				}()
 				next = s.pick(en, "exit")
 			}()
+			s.note(fmt.Sprintf("g%d exits -> g%d", g.id, next.id))
 			s.cur = next
 			next.wake <- true
 		}()
